@@ -29,6 +29,7 @@ CONSTANTS W,            \* workers 0..W-1
           ConnErrIsFatal,       \* FALSE (NEG) aborted/reset/refused treated like EMFILE
           WakeSkipsAcceptAll,   \* FALSE (NEG) WorkerAvailable only sets the bit
           PauseKeepsRegistered, \* FALSE (NEG)
+          JumpToFirstAvailable, \* FALSE (NEG) a saturated worker is skipped by jumping to the LOWEST available slot
           ResetSeparate,        \* FALSE (NEG) the waker queue is reset in a critical section of its own, after the empty pop
           RejoinPausedNoAvail   \* FALSE (NEG) a replacement handle that arrives during a pause is stored but not marked available
 
@@ -394,7 +395,10 @@ AChoose ==
        ELSE LET idx == handles[next + 1] IN
             IF avail[idx]
               THEN apc' = "send" /\ forced' = FALSE /\ UNCHANGED <<avail, next, turns>>
-              ELSE /\ next' = (next + 1) % Len(handles)
+              ELSE /\ next' = (IF JumpToFirstAvailable /\ AnyAvail
+                                THEN (CHOOSE p \in 0..(Len(handles) - 1) : avail[handles[p + 1]] /\
+                                         \A q \in 0..(Len(handles) - 1) : avail[handles[q + 1]] => p <= q)
+                                ELSE (next + 1) % Len(handles))
                    /\ turns' = turns + 1
                    /\ UNCHANGED avail
                    /\ IF ~AnyAvail THEN apc' = "send" /\ forced' = TRUE
@@ -543,6 +547,13 @@ C04_RoundRobin == (Len(handles) = W /\ Len(rrWindow) = W) => Distinct(rrWindow)
 \* state skips nobody until some worker reaches its limit)
 C04_BitsTrueWhenCalm ==
   (Quiescent /\ running) => \A i \in Workers : (InHandles(i) /\ alive[i] /\ counter[i] <= Limit) => avail[i]
+\* the rotation is cyclic and skips unavailable workers only: every worker strictly between the previous target and the new
+\* one (in rotation order) is marked unavailable when the new target is chosen.  Claimed while the rotation is the
+\* initial one (a fault reorders the handles)
+BetweenW(p, i) == IF i > p THEN {w \in Workers : p < w /\ w < i} ELSE {w \in Workers : w > p \/ w < i}
+C04_CyclicStep ==
+  (act'.n = "ASend" /\ act'.x = "ok" /\ ~everFaulted /\ Len(handles) = W /\ dispatchLog # <<>>) =>
+     \A w \in BetweenW(dispatchLog[Len(dispatchLog)][2], act'.i) : ~avail[w]
 C04_SaturatedGetsNothingStep ==
   (act'.n = "ASend" /\ act'.x = "ok" /\ ~everFaulted) => Load(act'.i) < Limit
 
@@ -562,7 +573,7 @@ C08_NoDupHandles == Distinct(handles)
 C08_DeadGetsNothingStep == (act'.n = "ASend" /\ act'.x = "ok") => alive[act'.i]
 C08_FaultReportedOnce == Distinct(cmdq) /\ Len(cmdq) <= nfaults
 
-Steps == [][C04_SaturatedGetsNothingStep /\ C05_PausedNoDispatchStep /\ C08_DeadGetsNothingStep]_vars
+Steps == [][C04_SaturatedGetsNothingStep /\ C04_CyclicStep /\ C05_PausedNoDispatchStep /\ C08_DeadGetsNothingStep]_vars
 
 (* ---------------- TLC plumbing ---------------- *)
 LogEdge == PrintT(<<"EDGE", ToJson([from |-> View, act |-> act', to |-> View', q |-> Quiescent'])>>)
